@@ -111,6 +111,18 @@ def op_set_field(w, kind, i, field, val):
                     raise RuntimeError("lazy constant was materialised")
 
                 o.const_value = ir.LazyTensor(thunk, dtype=ir.DataType.FLOAT, shape=ir.Shape([2]), name="cv_lazy")
+            elif val == "undefined_proto":
+                # a proto-backed tensor whose repr() raises (element type UNDEFINED): constructible and assignable
+                import onnx as _onnx
+
+                tp = _onnx.TensorProto(name="cv_undef", dims=[2], data_type=0)
+                o.const_value = ir.serde.TensorProtoTensor(tp)
+            elif val == "lazy_symbolic":
+                # a lazy tensor with a symbolic shape: its size cannot be computed, which repr(Value) tries to
+                def thunk2():
+                    raise RuntimeError("lazy constant was materialised")
+
+                o.const_value = ir.LazyTensor(thunk2, dtype=ir.DataType.FLOAT, shape=ir.Shape(["N"]), name="cv_lazy_sym")
             elif val == "external":
                 # a small constant stored in a data file that is not there (yet): reading it raises
                 o.const_value = ir.ExternalTensor("c20_missing.bin", 0, 8, ir.DataType.FLOAT, shape=ir.Shape([2]), name="cv_ext", base_dir="/dev/shm/c20-no-such-dir")
@@ -155,6 +167,8 @@ def extra_ops(w):
         ops += [("set_field", "v", v, "type", 1), ("set_field", "v", v, "shape", (2, 3)), ("set_field", "v", v, "const_value", 2)]
     for v in range(min(len(w.values), 2)):
         ops += [("set_field", "v", v, "const_value", "lazy"), ("set_field", "v", v, "const_value", "external")]
+    for v in range(min(len(w.values), 1)):
+        ops += [("set_field", "v", v, "const_value", "undefined_proto"), ("set_field", "v", v, "const_value", "lazy_symbolic")]
     return ops
 
 
